@@ -24,6 +24,8 @@ func c09(c *eng.Ctx, r *eng.Report) {
 		"R9.3 discarded errors of time/JSON (un)marshalling inside the converters are listed; " +
 		"R9.4 values cross the codec verbatim — every call made by a codec function of middleware/types (and the same-package helpers it reaches) is a reviewed value-preserving conversion, a generated getter or a sibling codec function, and no output element aliases a loop variable that the next iteration overwrites; no floating-point value appears in a codec function (integers decoded through float64 are rounded above 2^53). " +
 		"R9.5 inside the parsers (UnMarshal*, PbTo*) a Go-side pointer that a converter may have left nil — the result of a converter with a nil return, or a struct field such a result was stored in (Block.Header) — is dereferenced only under a nil test. " +
+		"R9.6 an encoder sets every protobuf field that is `req` by its struct tag on every path (proto.Marshal fails for the whole message — and a block carrying it — when a required field is nil, and the pool ignores that error); " +
+		"R9.7 no codec function appends to a slice it made with a non-zero length (`make([]T, len(src))` followed by append doubles the list: n zero values, then the real ones). " +
 		"Not decided: value equality after a round trip (nil-vs-empty slices, time zones)."
 	r.Assume = []string{"golang/protobuf proto2 Unmarshal returns an error when a `req` field is absent", "generated GetX() accessors are nil-safe"}
 	c09NilGuards(c, r)
@@ -31,6 +33,8 @@ func c09(c *eng.Ctx, r *eng.Report) {
 	c09Errors(c, r)
 	c09Verbatim(c, r)
 	c09FloatFree(c, r)
+	c09RequiredSet(c, r)
+	c09MakeLenAppend(c, r)
 	c09GoNil(c, r)
 }
 
@@ -787,4 +791,113 @@ func c09GoNil(c *eng.Ctx, r *eng.Report) {
 	}
 	r.Extra["nilable_converters"] = len(nilable)
 	r.Check(len(nilable) >= 1 && len(nilField) >= 1, rule, "go-nil:sources", "", fmt.Sprintf("%d converters may return nil, %d struct fields are filled from them, %d dereferences inside parsers", len(nilable), len(nilField), n), "no converter with a nil return / no field filled from one was found (PbToBlockHeader → Block.Header expected): the rule has lost sight of the parsers")
+}
+
+// c09RequiredSet: proto2 required fields.
+func c09RequiredSet(c *eng.Ctx, r *eng.Report) {
+	const rule = "R9.6"
+	r.Min(rule, 3)
+	n := 0
+	for _, fn := range c.PkgFuncs(typesPkg) {
+		if c.IsTestFunc(fn) || fn.Blocks == nil {
+			continue
+		}
+		// encoders: functions that build a pb struct (an Alloc of pb struct type whose fields they store)
+		for _, b := range fn.Blocks {
+			for _, in := range b.Instrs {
+				al, ok := in.(*ssa.Alloc)
+				if !ok {
+					continue
+				}
+				named, st := isPbStruct(al.Type())
+				if named == nil {
+					continue
+				}
+				stores := map[int][]ssa.Instruction{}
+				for _, ref := range *al.Referrers() {
+					fa, isFA := ref.(*ssa.FieldAddr)
+					if !isFA {
+						continue
+					}
+					for _, r2 := range *fa.Referrers() {
+						if s2, isS := r2.(*ssa.Store); isS && s2.Addr == ssa.Value(fa) && !eng.IsNilConst(s2.Val) {
+							stores[fa.Field] = append(stores[fa.Field], s2)
+						}
+					}
+				}
+				if len(stores) == 0 {
+					continue // a zero message (decode target), not an encoder
+				}
+				for i := 0; i < st.NumFields(); i++ {
+					if pbFieldTag(st, i) != "req" {
+						continue
+					}
+					n++
+					key := fmt.Sprintf("required:%s.%s@%s", named.Obj().Name(), st.Field(i).Name(), eng.FuncName(fn))
+					ok := len(stores[i]) > 0
+					if ok {
+						for _, re := range eng.Returns(fn) {
+							if !eng.MustPassBefore(fn, re.Ret, stores[i]) {
+								// only returns after the message was created matter
+								if eng.Reaches(al, re.Ret) {
+									ok = false
+								}
+							}
+						}
+					}
+					r.Check(ok, rule, key, c.Pos(al.Pos()), "set on every path", eng.FuncName(fn)+" does not set the required protobuf field "+named.Obj().Name()+"."+st.Field(i).Name()+" on every path: proto.Marshal then fails (`required field not set`) for that object and for any block carrying it, and callers that drop the error keep partial bytes the parser rejects")
+				}
+			}
+		}
+	}
+	if n < 3 {
+		r.Fail(rule, "required:sites", "", fmt.Sprintf("only %d required fields found in encoder-built messages", n))
+	}
+}
+
+// c09MakeLenAppend: make(len) + append.
+func c09MakeLenAppend(c *eng.Ctx, r *eng.Report) {
+	const rule = "R9.7"
+	r.Min(rule, 1)
+	n, bad := 0, 0
+	var root func(v ssa.Value, d int) *ssa.MakeSlice
+	root = func(v ssa.Value, d int) *ssa.MakeSlice {
+		if d > 5 {
+			return nil
+		}
+		switch x := v.(type) {
+		case *ssa.MakeSlice:
+			return x
+		case *ssa.Phi:
+			for _, e := range x.Edges {
+				if m := root(e, d+1); m != nil {
+					return m
+				}
+			}
+		}
+		return nil
+	}
+	for _, fn := range codecCone(c) {
+		if fn.Blocks == nil {
+			continue
+		}
+		for _, s := range eng.Sites(fn) {
+			if s.Name() != "builtin:append" {
+				continue
+			}
+			n++
+			ms := root(s.Common().Args[0], 0)
+			if ms == nil {
+				continue
+			}
+			if k, isK := eng.ConstInt(ms.Len); isK && k == 0 {
+				continue
+			}
+			bad++
+			r.Fail(rule, fmt.Sprintf("make-len-append:%s", eng.FuncName(fn)), c.Pos(s.Pos()), eng.FuncName(fn)+" appends to a slice it made with length "+eng.Desc(ms.Len)+": the decoded list comes out with that many zero values in front of the real entries — content and recomputed hash change across the codec")
+		}
+	}
+	if bad == 0 {
+		r.Pass(rule, "make-len-append:none", "", fmt.Sprintf("%d appends in codec functions, none to a slice made with a non-zero length", n))
+	}
 }
